@@ -9,7 +9,19 @@ let opt = function None -> "none" | Some v -> h v
 let fuel = nat_of_int 1000
 let fopt = function None -> "out-of-fuel" | Some v -> h v
 
+(* round 2: get_root_of_unity (asserts panic in every profile) and from_bytes_with_padding (hand model) *)
+let grou v ok = if ok then h v else "panic"
+let fb = function FieldBytes.FbOk v -> h v | FieldBytes.FbAssertLen | FieldBytes.FbDeserFailed -> "panic"
+
 let eval = function
+  | [ "f64.grou"; n ] -> grou (F64.f64_get_root_of_unity (z n)) (F64.f64_get_root_of_unity_ok (z n))
+  | [ "f62.grou"; n ] -> grou (F62.f62_get_root_of_unity (z n)) (F62.f62_get_root_of_unity_ok (z n))
+  | [ "f128.grou"; n ] ->
+      if F128.f128_get_root_of_unity_ok fuel (z n) then fopt (F128.f128_get_root_of_unity fuel (z n)) else "panic"
+  | [ "f62.exp_vartime"; a; b ] -> fopt (F62.f62_exp_vartime fuel (z a) (z b))
+  | [ "f64.fbwp"; a ] -> fb (FieldBytes.f64_from_bytes_with_padding (bytes_of_hex a))
+  | [ "f62.fbwp"; a ] -> fb (FieldBytes.f62_from_bytes_with_padding (bytes_of_hex a))
+  | [ "f128.fbwp"; a ] -> fb (FieldBytes.f128_from_bytes_with_padding (bytes_of_hex a))
   | [ "f64.new"; a ] -> okflag (F64.f64_new (z a)) (F64.f64_new_ok (z a))
   | [ "f64.as_int"; a ] -> h (F64.f64_as_int (z a))
   | [ "f64.add"; a; b ] -> okflag (F64.f64_add (z a) (z b)) (F64.f64_add_ok (z a) (z b))
